@@ -12,7 +12,9 @@ def shapes(rng, hist, nk):
     out = []
     gc_round = lambda lu, sf: [{"op": "prigc", "lowUse": lu, "deadline": 0}, {"op": "idxgc", "scanFree": sf, "deadline": 0}, {"op": "flush"}]
     # S1: every key removed -> every non-current file is dead
-    ops = list(hist) + [{"op": "rem", "k": k} for k in keys] + [{"op": "flush"}]
+    # (in half of the histories the removals are committed by Close + reopen instead of Flush: what Close flushes - the
+    # freelist pool included - must reach the files just the same)
+    ops = list(hist) + [{"op": "rem", "k": k} for k in keys] + [{"op": "flush"} if rng.random() < 0.5 else {"op": "reopen", "snap": "keep"}]
     for i in range(5):
         ops += gc_round(101, i % 2 == 0)
     out.append(("all-removed", ops))
